@@ -282,9 +282,7 @@ def run(ctx, col: Collector):
 
     def entry_hops():
         # the option travels PyDBML.__new__ / parse -> PyDBMLParser on every route (rule shared with C12)
-        from . import c12
-        sub = Collector(col.prop)
-        c12.run(ctx, sub)
+        sub = ctx.sub('c12', col.prop)
         n = 0
         for o in sub.obs:
             if o.rule == 'C12-options' and (o.construct.endswith(':allow_properties') or o.status == 'unrecognised'):
